@@ -38,10 +38,13 @@ Judge(e) ==
   ELSE IF ~OK(e) THEN {"outcome_changes_with_layout"}
   ELSE
     LET b == base
-        annual == DOMAIN b.out.flat \ StepPaths(b)
+        \* a by-carrier entry present on one side only (the maps omit exact zeros, and x/3*3 is not always x in f32)
+        \* counts as 0 on the other side
+        annual == (DOMAIN b.out.flat \ StepPaths(b)) \cup (DOMAIN e.out.flat \ StepPaths(e))
+        v0(x, p) == IF HasP(x, p) THEN V(x, p) ELSE 0
         n == e.N
     IN (IF (IsPerm(e) /\ PermInputOk(b, e)) \/ (IsSub(e) /\ SubInputOk(b, e)) THEN {} ELSE {"harness:transform"})
-       \cup {"annual_changes:" \o p : p \in {p \in annual \ Ratios : ~HasP(e, p) \/ ~EqN(e, V(e, p), V(b, p), 2 + n \div 4)}}
+       \cup {"annual_changes:" \o p : p \in {p \in annual \ Ratios : ~EqN(e, v0(e, p), v0(b, p), 2 + n \div 4)}}
        \cup {"annual_changes:" \o p : p \in {p \in Ratios : ~RatioEq(e, V(e, p), V(b, p))}}
        \cup (IF IsPerm(e)
              THEN {"step_vector:" \o k : k \in {k \in TKeys(b) \cup FKeys(b) : \E t \in 1..n : ~HasP(e, T(k, t)) \/ ~EqN(e, V(e, T(k, t)), V(b, T(k, e.run.perm[t])), 2)}}
